@@ -188,7 +188,13 @@ func analyse22(r *txRun) map[string]int {
 										}
 									}
 								}
-								viol("c22/stale-snapshot", fmt.Sprintf("a transaction started after %s's COMMIT had returned still read the value %q which %s had replaced", ow.Tx.ID, v, ow.Tx.ID), tx, rd,
+								key := "c22/stale-snapshot"
+								for _, t2 := range r.txs { // class: the session's previous autocommit statement failed (its transaction lingers)
+									if t2.Sess == tx.Sess && t2.Idx == tx.Idx-1 && t2.Mode == "bare" && t2.Outcome == "failed" && t2.Errno != 0 && tx.Mode == "bare" {
+										key = "c22/stale-snapshot/after-failed-autocommit-statement"
+									}
+								}
+								viol(key, fmt.Sprintf("a transaction started after %s's COMMIT had returned still read the value %q which %s had replaced", ow.Tx.ID, v, ow.Tx.ID), tx, rd,
 									map[string]any{"overwriter": ow.Tx.brief(), "overwriter_final_value": ow.Tx.net()[ow.Cell][1], "reader_session_previous_txs": prev, "reads_that_saw_the_new_value": seenBy})
 								break
 							}
